@@ -38,7 +38,9 @@ META = {
 }
 
 HEAVY = ("lowrank_pd", "dense_pd", "softabs", "dense_def", "lowrank_square_k2", "trifact_invfactor", "dense_sym", "lowrank_sym")
-ATTRS = ["T", "inv", "sqrt", "eigval", "eigvec", "array", "diagonal", "log_abs_det", "factor", "lu_and_piv", "matvec", "scaled"]
+OPERAND_ATTRS = ("matvec", "rmatvec", "matmat", "rmatmat")
+ATTRS = ["T", "inv", "sqrt", "eigval", "eigvec", "array", "diagonal", "log_abs_det", "factor", "lu_and_piv", "matvec", "rmatmat", "scaled"]
+RECT_ATTRS = ["T", "array", "matvec", "rmatvec", "matmat", "rmatmat", "scaled"]
 
 
 def _get(obj, attr, mk):
@@ -71,8 +73,15 @@ def _get(obj, attr, mk):
         if not hasattr(obj, "lu_and_piv"):
             raise Skip("no lu")
         return obj.lu_and_piv[0]
-    if attr == "matvec":
-        return obj @ mk.arr("v", obj.shape[1])
+    if attr in OPERAND_ATTRS:
+        ops = mk.__dict__.setdefault("_c19_operands", {})
+        key = (attr, obj.shape)
+        if key not in ops:
+            shape = {"matvec": (obj.shape[1],), "rmatvec": (obj.shape[0],), "matmat": (obj.shape[1], 2), "rmatmat": (2, obj.shape[0])}[attr]
+            arr = mk.arr(attr + "_operand", shape)
+            ops[key] = (arr, arr.copy())  # the caller's array and a snapshot of it
+        x = ops[key][0]
+        return obj @ x if attr in ("matvec", "matmat") else x @ obj
     if attr == "scaled":
         return (mk.nonzero("c") * obj).array
     raise KeyError(attr)
@@ -115,7 +124,9 @@ def prob_order(mk, kind, seq):
         items.append(Item(f"{kind} {list(seq)}: {a} independent of what was computed before", got[a], ref))
         items.append(Item(f"{kind} {list(seq)}: {a} identical when requested again", again, got[a]))
     for i, (arr, snap) in enumerate(zip(user_arrays, snaps)):
-        items.append(Item(f"{kind} {list(seq)}: parameter/operand array #{i} unchanged", arr, snap))
+        items.append(Item(f"{kind} {list(seq)}: parameter array #{i} unchanged", arr, snap))
+    for (attr, _), (arr, snap) in mk.__dict__.get("_c19_operands", {}).items():
+        items.append(Item(f"{kind} {list(seq)}: the caller's {attr} operand array is unchanged after the products", arr, snap))
     writable = [i for i, arr in enumerate(user_arrays) if arr.flags.writeable and arr.base is None]
     # parameters handed to the constructor are frozen (Matrix.__init__ clears the writeable flag of its array kwargs)
     return items
@@ -237,7 +248,7 @@ def run_group(rec, kind, seqs):
                 M.PositiveDefiniteMatrix.sqrt, M.SymmetricMatrix.eigval, M.ImplicitArrayMatrix.array)
     for seq in seqs:
         run_problem(rec, prob_order, {"kind": kind, "seq": list(seq)}, key_prefix=f"order/{kind}:", timeout_ms=30000, max_paths=60)
-    run_problem(rec, prob_equality, {"kind": kind}, key_prefix=f"equality/{kind}:", timeout_ms=30000, max_paths=60)
+    run_problem(rec, prob_equality, {"kind": kind}, key_prefix=f"equality/{kind}:", timeout_ms=30000, max_paths=60 if kind not in ml.RECT else 2000)
     concrete_pass(rec, kind)
 
 
@@ -245,8 +256,10 @@ def cases(tier):
     th = tier == "thorough"
     out = []
     L = 3 if th else 2
-    for kind in ml.leaves(2):
-        if kind.startswith(HEAVY) and not th:
+    for kind in ml.leaves(2) + ml.RECT:
+        if kind in ml.RECT:
+            attrs = RECT_ATTRS
+        elif kind.startswith(HEAVY) and not th:
             # quick tier: the classes whose attributes are expensive rational/transcendental terms get the five attributes
             # every class has (all 20 ordered pairs); the full attribute list is explored in the thorough tier
             attrs = ["T", "inv", "array", "log_abs_det", "matvec"]
